@@ -404,7 +404,9 @@ def _run(prop, tier, seed, args, t0):
         'violations': violations,
     }
     os.makedirs(os.path.join(VERIF_ROOT, 'evidence'), exist_ok=True)
-    with open(os.path.join(VERIF_ROOT, 'evidence', f'{prop}.json'), 'w') as f:
+    # development runs with --no-build never overwrite the real evidence file (it would record 0 obligations)
+    ev_name = f'{prop}.json' if not args.no_build else f'{prop}.nobuild.json'
+    with open(os.path.join(VERIF_ROOT, 'evidence', ev_name), 'w') as f:
         json.dump(ev, f, indent=1, default=repr)
     for line in kf_lines:
         print(line)
